@@ -92,7 +92,10 @@ package mmap
 //gvc:  opt frame args
 //gvc:  results err
 //gvc:  requires hs: s.hashSize == 20 || s.hashSize == 32
+//gvc:  modifies *s
+//gvc:  ensures keeps: s.hashSize == old(s.hashSize) && len(s.revMmap) == old(len(s.revMmap))
 //gvc:  ensures wf: err == nil ==> wf_scanner(s)
+//gvc:  sink validateFile requires [C10] smallest: arg3 <= 8 + 1024 + 2 * s.hashSize
 //gvc:end
 
 //gvc:func validateFile
@@ -100,4 +103,40 @@ package mmap
 //gvc:  theory int
 //gvc:  requires sane: 0 <= len(sig) && len(sig) + 4 <= minLen
 //gvc:  ensures long: result == nil ==> len(mmap) >= minLen
+//gvc:end
+
+// The reverse index handed to a scanner describes the same objects as the
+// index: one 4-byte position per object between the 12-byte header and the
+// two trailing checksums (property C10: offset-to-ID answers agree in every
+// implementation; a malformed file is rejected rather than answered from).
+//gvc:pred wf_rev(s) = len(s.revMmap) == 12 + 4 * s.count + 2 * s.hashSize
+
+//gvc:func (*PackScanner).loadPackFile
+//gvc:  props C10 C53
+//gvc:  theory int
+//gvc:  opt coarse
+//gvc:  opt frame args
+//gvc:  results err
+//gvc:  modifies *s
+//gvc:  ensures keeps: s.hashSize == old(s.hashSize)
+//gvc:end
+
+//gvc:func (*PackScanner).loadRevFile
+//gvc:  props C10 C53
+//gvc:  theory int
+//gvc:  opt coarse
+//gvc:  opt frame args
+//gvc:  results err
+//gvc:  modifies *s
+//gvc:  ensures keeps: s.hashSize == old(s.hashSize)
+//gvc:end
+
+//gvc:func NewPackScanner
+//gvc:  props C10 C53
+//gvc:  theory int
+//gvc:  opt coarse
+//gvc:  opt frame args
+//gvc:  results sc err
+//gvc:  requires hs: hashSize == 20 || hashSize == 32
+//gvc:  ensures loaded: err == nil ==> sc != nil && wf_scanner(sc) && wf_rev(sc)
 //gvc:end
